@@ -208,6 +208,9 @@ func compareTables(obs, exp *wTable, tag string) (string, string) {
 			}
 		}
 		_ = best
+		if bestN > 2 { // not near-duplicates: plain loss, not a conflation of two look-alikes
+			return "conservation/stack-dropped", fmt.Sprintf("%d stack(s) with non-zero total weight are missing from the result (%d altered, %d unexpected)", len(missing), len(altered), len(added))
+		}
 		return "conflated/" + bestAttr, fmt.Sprintf("two stacks that differ in %s were merged into one sample (their values were summed); %d stack(s) missing, %d altered, %d unexpected", bestAttr, len(missing), len(altered), len(added))
 	}
 	if len(missing) >= 2 && len(added) == 0 && len(altered) == 0 {
@@ -230,7 +233,10 @@ func compareTables(obs, exp *wTable, tag string) (string, string) {
 		return "conservation/stack-dropped", fmt.Sprintf("%d stack(s) with non-zero total weight are missing from the result", len(missing))
 	}
 	if len(added) > 0 && len(altered) > 0 {
-		attr, _ := keyDiff(added[0], altered[0])
+		attr, nd := keyDiff(added[0], altered[0])
+		if nd > 2 {
+			return "conservation/weight-altered", fmt.Sprintf("%d stack(s) whose value vector is not the element-wise sum over the inputs; %d stack(s) that should not be in the result", len(altered), len(added))
+		}
 		return "split/" + attr, fmt.Sprintf("%d stack(s) in the result that no input has with that total; %d altered", len(added), len(altered))
 	}
 	if len(added) > 0 {
@@ -530,6 +536,28 @@ func c03Check(c *Ctx, cs c03Case, full bool) (nontrivial bool) {
 	return nontrivial
 }
 
+// c03Outside: inputs outside the property's quantifier (a nil PeriodType cannot be compared);
+// only the outcome class of model and code is compared (never a violation).
+func c03Outside(c *Ctx, cs c03Case) {
+	ps := parseAll(c, cs.Profiles)
+	if ps == nil {
+		return
+	}
+	run := runMerge(ps, false)
+	goClass := "ok"
+	if run.panic_ != "" {
+		goClass = "panic"
+	} else if run.err != nil {
+		goClass = "err"
+	}
+	c.Res.ModelCompared++
+	m := c3firstWord(c.Drv.Ask("merge.model " + joinProfiles(cs.Profiles)))
+	c.Res.Hit("outside-quantifier:" + goClass)
+	if m != goClass {
+		c.Disagree("C03/model/outcome-class/outside/"+goClass+"-vs-"+m, "model and code disagree on the outcome class for a nil PeriodType: go="+goClass+" model="+m, c03Corr, cs)
+	}
+}
+
 func sortedWords(s string) string {
 	w := strings.Fields(s)
 	sort.Strings(w)
@@ -570,14 +598,18 @@ func mkCase(r *Rng, g c03Gen) c03Case {
 }
 
 func runC03(c *Ctx) {
-	c.Res.Rule = "cases = lists of 1..4 valid compatible profiles: (a) random families over a shared universe of entities (variants: renumbered/colliding ids, re-mapped binaries, negated/zeroed values, one-attribute tweaks, shuffled tables, self-duplicates), (b) enumerated near-duplicate pairs — one attribute of function/line/location/mapping/label/stack changed — in three placements (two inputs with colliding ids, one input, two inputs with ASLR) x two value signs, (c) label soups over tiny alphabets, (d) header grids, (e) cancelling inputs (re-merge path), (f) incompatible inputs; non-trivial = the real Merge hit a memo table (result has fewer samples or locations than the non-zero inputs put in); distinct by canonical text of the inputs"
+	c.Res.Rule = "cases = lists of 1..4 valid compatible profiles: (a) random families over a shared universe of entities (variants: renumbered/colliding ids, re-mapped binaries, negated/zeroed values, one-attribute tweaks, shuffled tables, self-duplicates), (b) enumerated near-duplicate pairs — one attribute of function/line/location/mapping/label/stack changed — in three placements (two inputs with colliding ids, one input, two inputs with ASLR) x two value signs, (c) label soups over tiny byte/number alphabets and digit soups (inline chains whose line/column numbers share hex digits) — inputs on which an encoding that loses a field boundary collides, (d) header grids, (e) cancelling inputs (re-merge path), (f) incompatible inputs; non-trivial = the real Merge hit a memo table (result has fewer samples or locations than the non-zero inputs put in); distinct by canonical text of the inputs"
 	if c.Replay != "" {
 		var cs c03Case
 		if err := c.LoadReplay(&cs); err != nil {
 			c.Res.HarnessError = err.Error()
 			return
 		}
-		c03Check(c, cs, true)
+		if cs.Kind == "outside/nil-period-type" {
+			c03Outside(c, cs)
+		} else {
+			c03Check(c, cs, true)
+		}
 		c.Res.Evaluations++
 		return
 	}
@@ -595,7 +627,11 @@ func runC03(c *Ctx) {
 				return
 			}
 		}
+		nf := len(c.Res.Findings)
 		nt := c03Check(c, cs, full)
+		if len(c.Res.Findings) > nf && strings.HasPrefix(g.kind, "family") || strings.HasPrefix(g.kind, "cancel") && len(c.Res.Findings) > nf {
+			c03ShrinkNew(c, nf, cs)
+		}
 		c.Res.Count(strings.Join(cs.Profiles, "|"), nt)
 		c.Res.Hit("kind:" + strings.SplitN(g.kind, "/", 2)[0])
 		c.Res.Hit(fmt.Sprintf("inputs:%d", len(g.profiles)))
@@ -615,7 +651,19 @@ func runC03(c *Ctx) {
 	for i := 0; i < 12; i++ {
 		one(genIncompatible(r), false)
 	}
-	n := 260 * c.Scale
+	// outside the quantifier: nil PeriodType (1 profile: accepted; 2 profiles: nil dereference)
+	for k := 1; k <= 3; k++ {
+		var ps []string
+		for j := 0; j < k; j++ {
+			p := ndBase()
+			if j != 1 || k == 2 {
+				p.PeriodType = nil
+			}
+			ps = append(ps, Canon(p))
+		}
+		c03Outside(c, c03Case{Kind: "outside/nil-period-type", Profiles: ps})
+	}
+	n := 1000 * c.Scale
 	for i := 0; i < n; i++ {
 		ps, note := genFamily(r, i)
 		one(c03Gen{kind: "family/" + c03Bases[i%len(c03Bases)].name, tag: "", profiles: ps}, i%3 == 0)
@@ -625,6 +673,9 @@ func runC03(c *Ctx) {
 		}
 		if i%2 == 0 {
 			one(genLabelSoup(r), false)
+		}
+		if i%4 == 1 {
+			one(genDigitSoup(r), false)
 		}
 		if i%10 == 0 { // Compact of a single profile (with garbage: unreferenced entities)
 			g := GenProfile(r, &c03Bases[i%len(c03Bases)].o)
